@@ -86,4 +86,8 @@ sub("jaxtyping/_pytree_type.py", """            for leaf_index, leaf in enumerat
                 if not ok:
                     return False
                 clear_treepath_memo()""")
+p = "jaxtyping/_decorator.py"; s = open(p).read()
+a = s.index("def _get_problem_arg("); b = s.index("def _remove_typing")
+body = s[a:b].replace("new_parameters", "rebuilt").replace("keep_name", "kept").replace("keep_annotation", "kept_ann").replace("sentinel", "missing").replace("p_name", "pname")
+open(p, "w").write(s[:a] + body + s[b:])
 print(dst)
